@@ -220,6 +220,101 @@ def mkQueueHandler (persistent : Bool) : Handler QD where
   onObs := fun d toks => { d with mon := d.mon.onObs toks }
   onEnd := fun d => d.mon.verdict
 
+/-! ## configuration glue: the queue an exporter actually gets, judged against the configuration as written
+
+The harness builds the exporter through the real constructors (`NewBaseExporter` + `WithQueueBatch` / `WithBatcher`),
+keeps the export blocked, and reports after every `Send` the size and capacity the exporter *reports* (its own
+queue-size / queue-capacity gauges) and what every `Send` returned.  The model is the memory-queue LTS instantiated
+from the WRITTEN configuration: capacity = `queue_size`, request size = the written `sizer` applied to the request.
+Consumers are the exporter's own goroutines; with the export blocked nothing completes, and in the memory queue reads
+change neither the size nor acceptance, so the model runs without them until `drain`. -/
+
+structure GD where
+  q : QD := {}
+  prevSize : Int := 0
+  lastOp : List String := []
+  els : List (Nat × Int) := []
+  drained : Bool := false
+  fails : List String := []
+
+def GD.obs (g : GD) : String :=
+  s!"obs size={g.q.s.size} cap={g.q.k.cap} P={joinOr "," (g.q.prods.map (fun p => s!"{p}:{g.q.pstatus p}"))}"
+
+/-- complete everything, let released producers in, repeat (fuel-bounded) -/
+def GD.drainLoop : Nat → QD → QD
+  | 0, d => d
+  | fuel + 1, d =>
+    let d := QD.closure 10000 d
+    match d.s.inflight with
+    | (id, _) :: _ =>
+      match d.applyLabel (.complete id 0) with
+      | some d' => GD.drainLoop fuel d'
+      | none => d
+    | [] =>
+      match d.s.items with
+      | _ :: _ =>
+        match d.applyLabel (.read 0) with
+        | some d' => GD.drainLoop fuel d'
+        | none => d
+      | [] => d
+
+def configHandler : Handler GD where
+  init := {}
+  onCase := fun g toks =>
+    let k : Cfg := { cap := (kvInt toks "cap").getD 1, block := parseBool (kv toks "block"), wfr := parseBool (kv toks "wfr") }
+    { g with q := { k := k } }
+  onOp := fun g toks =>
+    let g := { g with lastOp := toks }
+    match toks with
+    | ["offer", p, el] =>
+      match p.toNat?, el.toInt? with
+      | some p, some el =>
+        let (q', _) := ({ g.q with prods := insertSorted p g.q.prods } : QD).ext (.offer p el)
+        let g' := { g with q := q', els := (p, el) :: g.els }
+        (g', [g'.obs])
+      | _, _ => (g, ["obs bad-op"])
+    | ["cancel", p] =>
+      match p.toNat? with
+      | some p => let (q', _) := g.q.ext (.cancel p); let g' := { g with q := q' }; (g', [g'.obs])
+      | none => (g, ["obs bad-op"])
+    | ["drain"] =>
+      let g' := { g with q := GD.drainLoop 100000 g.q, drained := true }
+      (g', [g'.obs])
+    | _ => (g, ["obs bad-op"])
+  onObs := fun g toks =>
+    -- the property's clauses on what the exporter showed, for the CONFIGURED sizer and capacity
+    match toks with
+    | "obs" :: rest =>
+      match (Check.kvOf rest "size").bind String.toInt?, (Check.kvOf rest "cap").bind String.toInt?, Check.kvOf rest "P" with
+      | some size, some cap, some ps =>
+        let ps := Check.parsePairs ps
+        let at_ := " after op " ++ "_".intercalate g.lastOp
+        let fail (g : GD) (c : Bool) (msg : String) : GD := if c then { g with fails := g.fails ++ [msg] } else g
+        let g := fail g (cap != g.q.k.cap) s!"sig=C02/config/reported-capacity-differs-from-queue_size reported={cap} written={g.q.k.cap}"
+        let g := fail g (size < 0 || size > g.q.k.cap) s!"sig=C02/config/size-out-of-bounds-for-configured-capacity size={size} queue_size={g.q.k.cap}{at_}"
+        let g := match g.lastOp with
+          | ["offer", p, el] =>
+            match p.toNat?, el.toInt? with
+            | some p, some el =>
+              let st := (ps.lookup p).getD "?"
+              fail g (!(Check.refusalClause false g.q.k.block g.q.k.cap g.prevSize el st))
+                s!"sig=C02/config/refusal-not-exact-for-configured-sizer p={p} configured-size={el} reported-size-before={g.prevSize} queue_size={g.q.k.cap} got {st} want-refusal '{Check.expectedRefusal false g.q.k.block g.q.k.cap g.prevSize el}'"
+            | _, _ => g
+          | _ => g
+        -- before the drain nothing finishes: without wait_for_result the reported size is the configured size of what was accepted
+        let accepted := ps.filter (fun (_, st) => st == "nil")
+        let want := accepted.foldl (fun a (p, _) => a + (g.els.lookup p).getD 0) (0 : Int)
+        let g := fail g (!g.drained && !g.q.k.wfr && size != want)
+          s!"sig=C02/config/reported-size-is-not-configured-size-of-accepted size={size} configured-sum={want}{at_}"
+        let g := fail g (g.drained && size != 0) s!"sig=C02/config/size-not-zero-after-drain size={size}"
+        { g with prevSize := size }
+      | _, _, _ => { g with fails := g.fails ++ ["sig=C02/harness/unparsable-config-obs"] }
+    | _ => g
+  onEnd := fun g =>
+    match g.fails with
+    | [] => ["prop config=ok"]
+    | f :: _ => [s!"prop config=FAIL {f}"]
+
 /-! ## soak (native scheduler): monitor only -/
 
 structure SD where
@@ -250,4 +345,5 @@ end OtelVerif.Drivers.C02
 def main : IO UInt32 :=
   runMulti [("c02-cond", run OtelVerif.Drivers.C02.condHandler), ("c02-queue", run (OtelVerif.Drivers.C02.mkQueueHandler false)),
             ("c02-persistent", run (OtelVerif.Drivers.C02.mkQueueHandler true)),
-            ("c02-soak", run OtelVerif.Drivers.C02.soakHandler)]
+            ("c02-soak", run OtelVerif.Drivers.C02.soakHandler),
+            ("c02-config", run OtelVerif.Drivers.C02.configHandler)]
